@@ -57,19 +57,23 @@ def worker(k):
                     print(name, 'PATCH DOES NOT APPLY', flush=True)
                 continue
             fired = {}
+            errors = {}
             for pid in pids:
                 o = subprocess.run([f'{V}/check', pid], capture_output=True, text=True, cwd=V, env=env)
                 if o.returncode == 1:
                     fired[pid] = sorted(set(re.findall(r'rule=(\S+)', o.stdout)))
                 elif o.returncode != 0:
-                    fired[pid] = ['<check error %d: %s>' % (o.returncode, o.stderr.strip()[-200:])]
+                    # the machinery failed on this tree: neither a detection nor a quiet run
+                    errors[pid] = '<check error %d: %s>' % (o.returncode, o.stderr.strip()[-200:])
             with lock:
                 if kind == 'seeds':
                     res[name] = {'property': prop, 'fired': fired, 'caught_by_own_property': bool(prop and prop in fired), 'caught': bool(fired)}
-                    print(f"{name:42s} own={'Y' if prop and prop in fired else '-'} any={'Y' if fired else '-'}  {fired}", flush=True)
+                    print(f"{name:42s} own={'Y' if prop and prop in fired else '-'} any={'Y' if fired else '-'}  {fired}" + (f'  CHECK-ERRORS {errors}' if errors else ''), flush=True)
                 else:
                     res[name] = {'fired': fired}
-                    print(f"{name:12s} {'ALARM ' + json.dumps(fired) if fired else 'quiet'}", flush=True)
+                    print(f"{name:12s} {'ALARM ' + json.dumps(fired) if fired else 'quiet'}" + (f'  CHECK-ERRORS {errors}' if errors else ''), flush=True)
+                if errors:
+                    res[name]['check_errors'] = errors
                 json.dump(dict(sorted(res.items())), open(out_path, 'w'), indent=1)
     finally:
         subprocess.run(['git', '-C', '/repo', 'worktree', 'remove', '--force', wt], capture_output=True)
@@ -90,3 +94,4 @@ if kind == 'seeds':
     print('reverts/mutants caught:', sum(1 for k, v in res.items() if not v.get('property') and v.get('caught')), '/', sum(1 for k, v in res.items() if not v.get('property') and 'error' not in v))
 else:
     print('alarms:', sum(1 for v in res.values() if v.get('fired')), '/', len(res))
+print('patches on which some check failed to run:', sum(1 for v in res.values() if v.get('check_errors')))
